@@ -503,6 +503,19 @@ func (gn *c16Gen) seq(cur, depth, n int, lead string) []*c16Part {
 		case k < 14:
 			p := &c16Part{kind: pkChoice}
 			na := 2 + r.Intn(2)
+			if r.Intn(2) == 0 {
+				// an aliased choice of single symbols (their declared types differ most of the time): `$alias` is the
+				// value of whichever member is present
+				for a := 0; a < na; a++ {
+					sp := gn.symPart(cur, "")
+					sp.alias = ""
+					p.alts = append(p.alts, []*c16Part{sp})
+				}
+				gn.alias++
+				p.alias = fmt.Sprintf("c%d", gn.alias)
+				out = append(out, p)
+				continue
+			}
 			for a := 0; a < na; a++ {
 				p.alts = append(p.alts, gn.seq(cur, depth+1, 1+r.Intn(2), ""))
 			}
@@ -796,17 +809,21 @@ func c16PickRefsFor(r *rand.Rand, a *c16Act, scopeParts []*c16Part, firstOK bool
 	}
 	// aliases that span several positions (groups, choices): always look at both ends, and at the VALUE when at
 	// most one member can be present (the members have different declared types)
+	ends := false
 	for _, nm := range names {
-		if len(a.visible[nm]) > 1 && r.Intn(3) != 0 {
+		if len(a.visible[nm]) <= 1 {
+			continue
+		}
+		if !ends && r.Intn(3) != 0 {
 			a.refs = append(a.refs, c16Ref{id: nm, prop: 'e'}, c16Ref{id: nm, prop: 'o'})
-			ps := map[int]bool{}
-			for _, p := range a.visible[nm] {
-				ps[p] = true
-			}
-			if c16MaxActive(scopeParts, ps) <= 1 {
-				a.refs = append(a.refs, c16Ref{id: nm, prop: 'v'})
-			}
-			break
+			ends = true
+		}
+		ps := map[int]bool{}
+		for _, p := range a.visible[nm] {
+			ps[p] = true
+		}
+		if c16MaxActive(scopeParts, ps) <= 1 && r.Intn(4) != 0 {
+			a.refs = append(a.refs, c16Ref{id: nm, prop: 'v'})
 		}
 	}
 	// next to an inline list: the VALUES at the positions that also exist inside the list element (the element has
